@@ -204,6 +204,7 @@ def run(prop, tier, seed):
             if nl == '\r\n' and tier == 'quick' and rnd.random() > 0.3: continue
             for variant in ('rule', 'idempotent', 'unclaim-claim', 'sequences'):
                 key = (layout, nl, variant)
+                if not rep.mine(key): continue
                 try: msg, nt = case(layout, nl, variant, seed + hash(layout) % 1000)
                 except Exception: msg, nt = 'driver error: ' + traceback.format_exc()[-500:], True
                 rep.case(key, nt and has_c, dict(layout=list(layout), nl=nl, variant=variant) if rnd.random() < 0.002 else None)
